@@ -251,6 +251,10 @@ Record request := mkr {
   r_clen : Z                 (* r.ContentLength *)
 }.
 
+(* outcome of cryptohandler.decryptBody: nil error, an error, or a run-time panic inside it
+   (codec.EcbDecrypt -> pkcs5UnPadding indexes src[len(src)-1] without a length check) *)
+Inductive dec_res := DecOk | DecErr | DecPanic.
+
 Section Sig.
   Variable decryptors : list bytes.                       (* keys of the decryptors map *)
   Variable rsa_dec : bytes -> bytes -> option bytes.      (* decryptors[fp].DecryptBase64(secret) *)
@@ -258,7 +262,7 @@ Section Sig.
   Variable hmac_b64 : bytes -> bytes -> bytes.            (* codec.HmacBase64(key, content) *)
   Variable sha_hex : bytes -> bytes.                      (* fmt.Sprintf("%x", sha256(body)) *)
   Variable url_parse : bytes -> option (bytes * bytes).   (* url.Parse(s): (Path, RawQuery) *)
-  Variable body_dec_ok : bytes -> request -> bool.        (* cryptohandler.decryptBody(key, r) == nil *)
+  Variable body_dec : bytes -> request -> dec_res.        (* cryptohandler.decryptBody(key, r): nil / error / panics *)
 
   (* ParseContentSecurity :62-104 *)
   Definition parse_content_security (r : request) : cs_header + cs_error :=
@@ -318,15 +322,16 @@ Section Sig.
   (* value of the response header "Signature" set by handleVerificationFailure *)
   Inductive sig_hdr := SigNone | SigWrongTime | SigInvalid.
 
-  Record sout := mks { s_status : Z; s_ran : bool; s_hdr : sig_hdr }.
+  (* s_panic: the middleware panicked (no answer of its own; s_status is then meaningless, written 0) *)
+  Record sout := mks { s_status : Z; s_ran : bool; s_hdr : sig_hdr; s_panic : bool }.
 
-  Definition ran_ok : sout := mks 200 true SigNone.       (* inner handler answers 200 *)
+  Definition ran_ok : sout := mks 200 true SigNone false.       (* inner handler answers 200 *)
 
   (* handleVerificationFailure :51-62 (the default callback) *)
   Definition handle_verification_failure (strict : bool) (code : Z) : sout :=
     if strict then
       mks 403 false (if code =? code_wrong_time then SigWrongTime
-                     else if code =? code_invalid_header then SigInvalid else SigNone)
+                     else if code =? code_invalid_header then SigInvalid else SigNone) false
     else ran_ok.
 
   (* ContentSecurityHandler :21-41 *)
@@ -339,7 +344,11 @@ Section Sig.
           if negb (code =? code_pass) then handle_verification_failure strict code
           else if (0 <? r_clen r) && (h_ctype h =? encryption_type) then
             (* CryptoHandler(header.Key): 400 when the body does not decrypt *)
-            if body_dec_ok (h_key h) r then ran_ok else mks 400 false SigNone
+            match body_dec (h_key h) r with
+            | DecOk => ran_ok
+            | DecErr => mks 400 false SigNone false
+            | DecPanic => mks 0 false SigNone true
+            end
           else ran_ok
       end
     else ran_ok.
